@@ -402,6 +402,97 @@ def rule_member_strop(ctx, ts):
     ctx.floor(R + ":id-uses", n, 20)
 
 
+def rule_name_agree(ctx, ts):
+    R = "R-C06-NAME-AGREE"
+    ctx.rule(
+        R,
+        "C: a preprocessor identifier that embeds a DSDL field name (<T>_<field>_ARRAY_CAPACITY_, ...) is formed from the same "
+        "name expression where it is #defined and where it is used - resolved through macro parameters (call-site arguments) "
+        "and through re-bindings of a parameter inside the macro; a use built from id(name) while the definition uses the raw "
+        "name names a macro that does not exist for every field whose name is stropped",
+    )
+    from nvsa import j2text
+    N = ts.nodes
+    lang = "c"
+    occ = []   # (suffix, name-expression string, is_definition, template, macro name, lineno)
+    all_macros = {}
+    for t in ts.of_lang(lang, "templates"):
+        for mname, m in ts.macros(t).items():
+            all_macros.setdefault(mname, []).append((t, m))
+
+    def callsite_args(mname, idx):
+        out = []
+        for t in ts.of_lang(lang, "templates"):
+            for c in t.ast.find_all(N.Call):
+                if isinstance(c.node, N.Name) and c.node.name == mname and idx < len(c.args):
+                    out.append(c.args[idx])
+        return out
+
+    def resolve(e, mname, m, depth=0):
+        """name expressions a use can stand for: parameters are replaced by what call sites pass (string literals and
+        pass-through of the same parameter are skipped), after applying a re-binding `{% set p = g(p) %}` of the parameter"""
+        params = [a.name for a in m.args] if m is not None else []
+        if isinstance(e, N.Name) and e.name in params and depth < 3:
+            rebind = [a.node for a in m.find_all(N.Assign) if isinstance(a.target, N.Name) and a.target.name == e.name]
+            outs = []
+            for a in callsite_args(mname, params.index(e.name)):
+                if isinstance(a, N.Const) or (isinstance(a, N.Name) and a.name == e.name):
+                    continue
+                base = xs(a)
+                if rebind:
+                    with j2front.xs_with({e.name: a}):
+                        base = xs(rebind[-1])
+                outs.append(base)
+            return outs
+        return [xs(e)]
+
+    for t in ts.of_lang(lang, "templates"):
+        for mname, m in list(ts.macros(t).items()):
+            streams = []
+            for o in m.find_all(N.Output):
+                pieces = []
+                for d in o.nodes:
+                    if isinstance(d, N.TemplateData):
+                        pieces.append(d.data)
+                    else:
+                        pieces.extend(j2text._expand(N, d, j2text.TPath()))
+                        # text built inside the arguments of a macro call (e.g. an array bound handed to a nested macro)
+                        for sub in d.find_all((N.Filter, N.Add, N.Mod, N.Concat)):
+                            if j2text._string_building(N, sub, j2text.TPath()):
+                                ex = j2text._expand(N, sub, j2text.TPath())
+                                if any(isinstance(x, str) for x in ex) and len(ex) > 1:
+                                    streams.append((o, [" "] + ex + [" "]))
+                streams.append((o, pieces))
+            for o, pieces in streams:
+                # <expr> '_' <expr> '_SUFFIX_'
+                for i in range(len(pieces) - 3):
+                    a, sep, b, suf = pieces[i:i + 4]
+                    if isinstance(a, str) or isinstance(b, str) or not isinstance(sep, str) or not isinstance(suf, str):
+                        continue
+                    ms = re.match(r"^(_[A-Z][A-Z0-9_]*_)(?![A-Za-z0-9_])", suf)
+                    if sep != "_" or ms is None:
+                        continue
+                    before = "".join(x for x in pieces[:i] if isinstance(x, str))
+                    line = before[before.rfind("\n") + 1:]
+                    is_def = re.search(r"#\s*define\s+$", line) is not None
+                    for name_expr in resolve(b, mname, m):
+                        occ.append((ms.group(1), re.sub(r"(?<![\w.])[a-z_]\w*(?=\.)", "<v>", name_expr, count=1), is_def, t, mname, o.lineno))
+    defs = {}
+    for suf, ne, is_def, t, mname, ln in occ:
+        if is_def:
+            defs.setdefault(suf, set()).add(ne)
+    n = 0
+    for suf, ne, is_def, t, mname, ln in occ:
+        if is_def or suf not in defs:
+            continue
+        n += 1
+        ok = ne in defs[suf]
+        ctx.ob(R, t.rel, f"c: use of <T>_<{ne}>{suf} in {mname} names a defined macro", ok,
+               "" if ok else f"the macro is #defined with the name expression {sorted(defs[suf])} but used with `{ne}`: for a field whose name is changed "
+               "by stropping (e.g. `return`, `register`) the use refers to an identifier that is never defined and the header does not compile", ln)
+    ctx.floor(R, n, 1)
+
+
 def rule_union_dep(ctx, px):
     R = "R-C06-UNION-DEP"
     ctx.rule(
@@ -764,6 +855,9 @@ def run(ctx):
     rule_std_includes(ctx, px)
     rule_omit_std_types(ctx, ts)
     rule_member_strop(ctx, ts)
+    rule_name_agree(ctx, ts)
+    from checks import _codec
+    _codec.rule_top_empty(ctx, _codec.Codec(ts), "R-C06-EMPTY-TYPE")
     rule_union_dep(ctx, px)
     rule_deprecated_self_use(ctx, ts)
     rule_include_monotone(ctx, px)
